@@ -49,6 +49,28 @@ let res_bytes = function Ok l -> "ok " ^ hx l | Throw e -> exn_s e
 let zd = z_of_dec
 let nd = n_of_dec
 
+let verdict_s = function Accept -> "accept" | Sig e -> exn_s e | RetFalse -> "false" | Terminate -> "terminate"
+let mkbuf nul len = { b_null = (nul = "1"); b_len = zd len }
+let args_run a = match a with
+  | ["gethash"; s] -> v_get_hash (zd s)
+  | ["gethmac"; kn; kl; mn; ml; s] -> v_get_hmac (mkbuf kn kl) (mkbuf mn ml) (zd s)
+  | ["hmacinit"; kn; kl; s] -> v_hmac_init (mkbuf kn kl) (zd s)
+  | ["hmacupdate"; dn; dl; s] -> v_hmac_update (mkbuf dn dl) (zd s)
+  | ["hmacfinal"; on; ol; s] -> let sel = zd s in (match v_hmac_init (mkbuf "0" "1") sel with Accept -> v_hmac_final (on = "1") (zd ol) (sel_digest sel) sel | v -> v)
+  | ["pbkdf2vec"; pn; pl; sn; sl; it; dk; s] -> v_pbkdf2_vec (mkbuf pn pl) (mkbuf sn sl) (zd it) (zd dk) (zd s)
+  | ["pbkdf2buf"; pn; pl; sn; sl; on; it; dk; s] -> v_pbkdf2_buf (mkbuf pn pl) (mkbuf sn sl) (on = "1") (zd it) (zd dk) (zd s)
+  | ["pbkdf2sha256"; pn; pl; sn; sl; on; it; dk] -> v_pbkdf2_buf (mkbuf pn pl) (mkbuf sn sl) (on = "1") (zd it) (zd dk) (zd "1")
+  | ["pepper"; pn; pl; sn; sl; en; el; it; dk; s] -> v_pepper (mkbuf pn pl) (mkbuf sn sl) (mkbuf en el) (zd it) (zd dk) (zd s)
+  | ["hkdfx"; inn; il; sn; sl] -> v_hkdf_extract (mkbuf inn il) (mkbuf sn sl)
+  | [("hkdfe" | "hkdfes"); pn; pl; inn; il; l] -> v_hkdf_expand (mkbuf pn pl) (mkbuf inn il) (zd l)
+  | ["hotp"; kn; kl; d; s] -> v_hotp (mkbuf kn kl) (zd d) (zd s)
+  | [("totpat" | "totpvalidat"); kn; kl; p; d; s] -> v_totp_at (mkbuf kn kl) (zd p) (zd d) (zd s)
+  | [("totpnow" | "totpvalidnow"); kn; kl; p; d; s; now; err] -> v_totp_now (mkbuf kn kl) (zd p) (zd d) (zd s) (zd now, err <> "0")
+  | ["hotpdg"; dl; nib] -> v_hotp_from_digest (zd dl) (zd nib)
+  | [("tokgen" | "tokval" | "tokgenfp" | "tokvalfp"); iv; s; now; err] -> v_token (zd iv) (zd s) (zd now, err <> "0")
+  | ["secretset"; dn; dl] -> v_secret_set (mkbuf dn dl)
+  | _ -> failwith "args api"
+
 let run toks =
   match toks with
   | ["cteq"; a; b] -> bool_s (ct_equals (bx a) (bx b))
@@ -133,6 +155,11 @@ let run toks =
   | ["spec.tokval"; t; tok; k; fp; i; now] ->
       "ok " ^ bool_s (List.mem (bx tok) (candidates (hash_of t) (bx k) (if fp = "none" then None else Some (bx fp)) (zd now) (zd i)))
   | ["tostring"; z] -> hx (to_string (zd z))
+  | "args" :: rest -> verdict_s (args_run rest)
+  | ["b36enc"; d] -> hx (base36_encode (bx d))
+  | ["spec.b36enc"; d] -> hx (b36_spec_encode (bx d))
+  | ["b36dec"; s] -> (match base36_decode (bx s) with Some d -> "some " ^ hx d | None -> "none")
+  | ["spec.b36dec"; s] -> let l = bx s in if List.for_all is_alnum l then "some " ^ hx (b36_spec_decode l) else "none"
   | t :: _ -> failwith ("unknown op " ^ t)
   | [] -> ""
 
